@@ -6,7 +6,8 @@
    - The full statement "parse with Memoize(true) = parse with default options" is FALSE of the
      faithful model: a memo hit on a label-binding expression skips the binding (known finding
      C06-MEMO-LABEL); the witness also shows the equivalence restored when such results are not
-     memoised.  For the remaining grammars the statement, the Debug / Statistics options (outside
+     memoised.
+     For the remaining grammars the statement, the Debug / Statistics options (outside
      the model) and the bound on evaluated expressions are decided by execution (DESIGN.md). *)
 From PV Require Import Lib.Base Lib.Utf8 Syntax.RGrammar Syntax.Code Model.PState Spec.Pos Model.Runtime
   Spec.Ref Spec.RefParse Proofs.Determinacy Proofs.MemoRefuted.
@@ -35,3 +36,17 @@ Theorem C06_memoize_refuted_on_labels :
   value_of (parse (cfg_memo no_label_memo true) 100) = Some expected.
 Proof. exact (conj spec_value (conj default_options_value (conj memoize_changes_value memoize_without_label_memo))). Qed.
 Print Assumptions C06_memoize_refuted_on_labels.
+
+(* An observation OUTSIDE the statement of C06 (which speaks of success/failure, value and code-block errors, not of
+   the text of the final "no match found" report): a result computed inside a ! predicate and reused outside it (or
+   the reverse) changes the expected set.  S <- !A "x" / A ; A <- "a"  on "b": [no match found, expected: "a" or "x"]
+   by the specification and with default options, [.. expected: "x"] with Memoize(true); not using the table inside !
+   (model switch q_memo_expected) restores the equality.  Kept so that the model documents what the code does. *)
+Theorem C06_observation_memoize_changes_expected_set :
+  rerrors_of (rparse (rd (cfg_exp faithful false)) 100) = both_expected /\
+  errors_of (parse (cfg_exp faithful false) 100) = both_expected /\
+  errors_of (parse (cfg_exp faithful true) 100) = only_x /\
+  errors_of (parse (cfg_exp no_expected_memo true) 100) = both_expected /\
+  both_expected <> only_x.
+Proof. exact (conj exp_spec (conj exp_default (conj exp_memoize (conj exp_memoize_repaired exp_differ)))). Qed.
+Print Assumptions C06_observation_memoize_changes_expected_set.
